@@ -163,7 +163,7 @@ func runC13(c *Ctx) {
 			continue
 		}
 		var loop *ast.ForStmt
-		ast.Inspect(u.Body, func(n ast.Node) bool {
+		u.InspectAll(func(n ast.Node) bool {
 			if f, ok := n.(*ast.ForStmt); ok && loop == nil {
 				loop = f
 			}
@@ -389,7 +389,7 @@ func c13TableCut(c *Ctx, q2 string) {
 				okEq := false
 				// the innermost loop over the page that contains the cut, and its element variable
 				var elem types.Object
-				ast.Inspect(u.Body, func(n ast.Node) bool {
+				u.InspectAll(func(n ast.Node) bool {
 					if rs, ok := n.(*ast.RangeStmt); ok && rs.Pos() <= s.Pos && s.Pos < rs.End() {
 						if id, ok := rs.Value.(*ast.Ident); ok {
 							elem = u.Info().ObjectOf(id)
@@ -419,7 +419,8 @@ func c13TableCut(c *Ctx, q2 string) {
 						for _, d := range u.Sites {
 							if d.Kind == flow.SStore && d.Local == o && d.Tuple != nil && d.TupleIdx == 0 {
 								if ce, ok := ast.Unparen(d.Tuple).(*ast.CallExpr); ok && len(ce.Args) == 1 && strings.HasPrefix(u.C.Term(d.Tuple), "common.ExtractTable(") {
-									if aid, ok := ast.Unparen(ce.Args[0]).(*ast.Ident); ok && elem != nil && u.Info().ObjectOf(aid) == elem {
+									// (by term: a helper read in place of its call names the element by its parameter)
+									if elem != nil && u.C.Term(ce.Args[0]) == u.C.TermOfObj(elem) {
 										fromElem = true
 									}
 								}
